@@ -35,6 +35,7 @@ import (
 //	LIN    <component> <seed> <threads> <ops>   short concurrent history, checked for linearizability
 //	STRESS <component> <seed> <threads> <ops>   long concurrent workload, race detection only
 //	EBMID                                       deterministic EventsBuffer scenario (Process callback blocks mid-push)
+//	SNAPMID                                     deterministic Flushable.GetSnapshot vs Flush scenario (the parent's GetSnapshot blocks)
 //
 // LIN/STRESS/EBMID are executed by build/C28/c28stress, a separate binary built WITH THE RACE DETECTOR
 // (bin/c28_lockscan); this function only starts it and turns its output and the race reports into observation
@@ -47,6 +48,7 @@ func c28Gen(r *rand.Rand, n int, tier string, emit func(input ...string)) {
 		emit("TABLE", t.name)
 	}
 	emit("EBMID")
+	emit("SNAPMID")
 	for i := 0; i < n; i++ {
 		comp := c28Components[i%len(c28Components)]
 		seed := fmt.Sprint(r.Int63n(1 << 40))
